@@ -56,8 +56,18 @@ func (t *recT) Parallel() {
 	}
 }
 func (t *recT) Run(name string, f func(testscript.T)) {
-	child := &recT{name: name, b: t.b, verdict: "pass"}
 	t.b.mu.Lock()
+	if t.b.byOrder != nil {
+		// explicit Params.Files: RunT starts the subtests in the order of the files, under names of its own choosing;
+		// the k-th subtest is the k-th script whatever it is called
+		sub := name
+		if t.b.nrun < len(t.b.byOrder) {
+			name = t.b.byOrder[t.b.nrun]
+		}
+		t.b.nrun++
+		t.b.alias[sub] = name
+	}
+	child := &recT{name: name, b: t.b, verdict: "pass"}
 	t.b.tests[name] = child
 	t.b.mu.Unlock()
 	body := func() {
@@ -102,6 +112,10 @@ type batch struct {
 	canary bool
 	leaked []string // host variables visible to a script or its children with the host's value
 	miss   []string // documented / Setup / pass-through variables a script did not see as promised
+	// explicit-files batches: script names in file order, subtest name -> script name
+	byOrder []string
+	nrun    int
+	alias   map[string]string
 }
 
 func (b *batch) event(e Event) {
@@ -110,7 +124,16 @@ func (b *batch) event(e Event) {
 	b.mu.Unlock()
 }
 
-func scriptOf(ts *testscript.TestScript) string { return ts.Name() }
+// scriptOf names the script a command runs in: the subtest name, which RunT derives from the file name (and, for
+// explicit files with equal base names, makes unique in a way of its own: the driver translates it back).
+func (b *batch) scriptOf(ts *testscript.TestScript) string {
+	b.mu.Lock()
+	defer b.mu.Unlock()
+	if a, ok := b.alias[ts.Name()]; ok {
+		return a
+	}
+	return ts.Name()
+}
 
 // host variables a script may legitimately see with the host's value
 var passThrough = map[string]bool{"PATH": true, "GOCOVERDIR": true, "GORACE": true}
@@ -170,10 +193,10 @@ func (b *batch) cmds() map[string]func(ts *testscript.TestScript, neg bool, args
 					b.leak(kv[:i])
 				}
 			}
-			b.event(Event{Ev: "obs", S: scriptOf(ts), V: fmt.Sprintf("cwd=%s V=%s files=%s", cwd, ts.Getenv("V"), strings.Join(files, ","))})
+			b.event(Event{Ev: "obs", S: b.scriptOf(ts), V: fmt.Sprintf("cwd=%s V=%s files=%s", cwd, ts.Getenv("V"), strings.Join(files, ","))})
 		},
 		"mark": func(ts *testscript.TestScript, neg bool, args []string) {
-			b.event(Event{Ev: "obs", S: scriptOf(ts), V: "mark " + strings.Join(args, " ")})
+			b.event(Event{Ev: "obs", S: b.scriptOf(ts), V: "mark " + strings.Join(args, " ")})
 		},
 		// childenv: what a child process sees (stdout of `exec env` is inspected)
 		"childenv": func(ts *testscript.TestScript, neg bool, args []string) {
@@ -206,10 +229,10 @@ func (b *batch) cmds() map[string]func(ts *testscript.TestScript, neg bool, args
 				}
 			}
 			sort.Strings(vars)
-			b.event(Event{Ev: "obs", S: scriptOf(ts), V: "childenv " + strings.Join(vars, " ")})
+			b.event(Event{Ev: "obs", S: b.scriptOf(ts), V: "childenv " + strings.Join(vars, " ")})
 		},
 		"defer": func(ts *testscript.TestScript, neg bool, args []string) {
-			s := scriptOf(ts)
+			s := b.scriptOf(ts)
 			b.mu.Lock()
 			b.nextK[s]++
 			k := b.nextK[s]
@@ -218,6 +241,25 @@ func (b *batch) cmds() map[string]func(ts *testscript.TestScript, neg bool, args
 			ts.Defer(func() {
 				vsched.Yield("deferred")
 				b.event(Event{Ev: "ran", S: s, K: k})
+			})
+		},
+		// deferfail: a deferred function that reports a failure through T when it runs (as a Setup cleanup that audits
+		// something would): the run is failed, the functions registered before it still have to run
+		"deferfail": func(ts *testscript.TestScript, neg bool, args []string) {
+			s := b.scriptOf(ts)
+			b.mu.Lock()
+			b.nextK[s]++
+			k := b.nextK[s]
+			t := b.tests[s]
+			b.mu.Unlock()
+			b.event(Event{Ev: "defer", S: s, K: k})
+			ts.Defer(func() {
+				vsched.Yield("deferred")
+				b.event(Event{Ev: "ran", S: s, K: k})
+				if t != nil {
+					t.Fatal("deferred function reports a failure")
+				}
+				panic(failNow{})
 			})
 		},
 		"pids": func(ts *testscript.TestScript, neg bool, args []string) {
@@ -276,6 +318,7 @@ func okStr(err error) string {
 type Script struct {
 	Name  string   `json:"name"`
 	Lines []string `json:"lines"` // abstract line kinds
+	File  string   `json:"file"`  // "" or the script's path (without .txt) below the scripts directory: passed through Params.Files
 }
 
 type Config struct {
@@ -322,6 +365,8 @@ func render(sc Script, prog string) string {
 			sb.WriteString("mkdir ro/inner\ncp $WORK/seed.txt ro/inner/f.txt\nchmod 555 ro/inner\nchmod 555 ro\n")
 		case "defer":
 			sb.WriteString("defer\n")
+		case "deferfail":
+			sb.WriteString("deferfail\n")
 		case "nopath":
 			sb.WriteString("env PATH=/nonexistent\n")
 		case "condexec":
@@ -388,12 +433,24 @@ func runBatch(mode string, cfg Config, strat vsched.Strategy) *RunRec {
 	origPath := os.Getenv("PATH")
 	os.Setenv("PATH", bindir+string(os.PathListSeparator)+origPath)
 	defer os.Setenv("PATH", origPath)
+	b := &batch{tests: map[string]*recT{}, root: gotmp, nextK: map[string]int{}, alias: map[string]string{}}
+	var files []string
+	useFiles := len(cfg.Scripts) > 0
 	for _, sc := range cfg.Scripts {
-		if err := os.WriteFile(filepath.Join(sdir, sc.Name+".txt"), []byte(render(sc, prog)), 0o666); err != nil {
+		useFiles = useFiles && sc.File != "" // (free mode mixes scripts of several batches: then all go through Dir)
+	}
+	for _, sc := range cfg.Scripts {
+		p := filepath.Join(sdir, sc.Name+".txt")
+		if useFiles {
+			p = filepath.Join(sdir, sc.File+".txt")
+			os.MkdirAll(filepath.Dir(p), 0o777)
+			files = append(files, p)
+			b.byOrder = append(b.byOrder, sc.Name)
+		}
+		if err := os.WriteFile(p, []byte(render(sc, prog)), 0o666); err != nil {
 			vutil.Fatalf("%v", err)
 		}
 	}
-	b := &batch{tests: map[string]*recT{}, root: gotmp, nextK: map[string]int{}}
 	os.Setenv("GOTMPDIR", gotmp)
 	os.Setenv("VERIF_CANARY", "host-secret")
 	os.Setenv("GOCOVERDIR", filepath.Join(base, "cov")) // documented pass-through variables
@@ -403,6 +460,9 @@ func runBatch(mode string, cfg Config, strat vsched.Strategy) *RunRec {
 	// a deadline far in the future: RunT then runs its scripts under a shared context with a timeout
 	p := testscript.Params{Dir: sdir, Cmds: b.cmds(), Deadline: time.Now().Add(2 * time.Hour),
 		Setup: func(e *testscript.Env) error { e.Setenv("SETUP_ADDED", "yes"); return nil }}
+	if files != nil {
+		p.Dir, p.Files = "", files
+	}
 	if cfg.How == "workdirroot" {
 		p.WorkdirRoot = filepath.Join(gotmp, "given-root")
 		os.MkdirAll(p.WorkdirRoot, 0o777)
